@@ -7,16 +7,16 @@ open Rx.Gen.Debounce
 theorem wiring_Debounce_lets : DebounceOp.lets =
   [("task_handler", "MutArc::own(None)"),
    ("observer", "DebounceObserver { observer : MutArc::own(Some(observer)), delay : duration, scheduler, trailing_value : MutArc::own(None), task_handler : task_handler , }"),
-   ("u", "source.actual_subscribe(observer)")] := by decide
+   ("u", "source.actual_subscribe(observer)")] := by first | rfl | decide
 
 theorem wiring_Debounce_views : DebounceOp.views =
   [("DebounceObserver", "observer", "MutArc::own(Some(observer))"),
    ("DebounceObserver", "delay", "duration"),
    ("DebounceObserver", "scheduler", "scheduler"),
    ("DebounceObserver", "trailing_value", "MutArc::own(None)"),
-   ("DebounceObserver", "task_handler", "task_handler")] := by decide
+   ("DebounceObserver", "task_handler", "task_handler")] := by first | rfl | decide
 
 theorem wiring_Debounce_order : DebounceOp.order =
-  [("source", "observer")] := by decide
+  [("source", "observer")] := by first | rfl | decide
 
 end Rx.GenTie
